@@ -5,8 +5,10 @@
 (* relative destinations, a subproject, tags, modes, excludes,             *)
 (* strip_directory), four umask configurations, DESTDIR existing or not;   *)
 (* every history of install (full, --dry-run, --only-changed, --tags,      *)
-(* --skip-subprojects), uninstall, editing a source and planting a foreign *)
-(* file - the complete reachable state space, no depth bound.              *)
+(* --skip-subprojects), uninstall, changing the sources (edited; content   *)
+(* and time stamp apart) and planting a foreign file - the complete        *)
+(* reachable state space, no depth bound.  Modes are st_mode & 07777 with  *)
+(* owner and group; the file system applies the kernel's chown rule.       *)
 (*                                                                         *)
 (* The state is a whole file system in which DESTDIR is one directory; the *)
 (* transition is made by the operational InstallOps and each law is        *)
@@ -14,7 +16,7 @@
 (* `bad`, one invariant per law).                                          *)
 (***************************************************************************)
 EXTENDS InstallOps, TLC, Json, IOUtils
-CONSTANTS MaxPlan, CatalogName, OptsName
+CONSTANTS MaxPlan, CatalogName, OptsName, TimesName
 
 VARIABLES plan, o, fs, log, ver, bad
 vars == <<plan, o, fs, log, ver, bad>>
@@ -23,17 +25,19 @@ vars == <<plan, o, fs, log, ver, bad>>
 Item(id, kind, sub, dir, src) ==
     [id |-> id, kind |-> kind, sub |-> sub, dir |-> dir, src |-> src, rename |-> <<>>, pp |-> FALSE, hsub |-> <<>>,
      stem |-> "", locale |-> "", sect |-> "", strip |-> FALSE, exf |-> <<>>, exd |-> <<>>, st |-> <<>>,
-     mode |-> -1, tag |-> "", ext |-> "", to |-> "", fl |-> ""]
-E(p, t, m, c) == [p |-> p, t |-> t, m |-> m, c |-> c, l |-> "", r |-> ""]
+     mode |-> -1, own |-> -1, grp |-> -1, tag |-> "", ext |-> "", to |-> "", fl |-> ""]
+E(p, t, m, c) == [p |-> p, t |-> t, m |-> m, c |-> c, l |-> "", r |-> "", mt |-> 0]
 \* a source that is a symbolic link with text l, resolving to a file of mode m and content c (r = "file": a source of
 \* the project, edited with it; "fixed": somebody else's file) or dangling (r = "none")
-L(p, l, r, m, c) == [p |-> p, t |-> "link", m |-> m, c |-> c, l |-> l, r |-> r]
+L(p, l, r, m, c) == [p |-> p, t |-> "link", m |-> m, c |-> c, l |-> l, r |-> r, mt |-> 0]
 None == [k |-> "none", p |-> <<>>]
 AbsD(p) == [k |-> "abs", p |-> p]
 
-C1  == [Item("c1", "data", "", Rel(<<"share", "x">>), <<"a.dat">>) EXCEPT !.tag = "t1", !.ext = ".dat", !.st = <<E(<<>>, "file", 420, "c1")>>]
+\* install_mode: C1 [false, false, 2]; C2 ['rw-------']; C3 [false, 1]; C10 ['rwsr-xr-x', 1, 2]; C17 ['rwxr-x--T', 1, 2] on a
+\* directory other rules install into; C20 ['rwsr-s---', 1, 1] on a tree with a link that is copied as a link
+C1  == [Item("c1", "data", "", Rel(<<"share", "x">>), <<"a.dat">>) EXCEPT !.grp = 2, !.tag = "t1", !.ext = ".dat", !.st = <<E(<<>>, "file", 420, "c1")>>]
 C2  == [Item("c2", "data", "", AbsD(<<"etc", "x">>), <<"b.dat">>) EXCEPT !.mode = 384, !.ext = ".dat", !.st = <<E(<<>>, "file", 493, "c2")>>]
-C3  == [Item("c3", "header", "sp1", None, <<"h.h">>) EXCEPT !.ext = ".h", !.st = <<E(<<>>, "file", 420, "c3")>>]
+C3  == [Item("c3", "header", "sp1", None, <<"h.h">>) EXCEPT !.own = 1, !.ext = ".h", !.st = <<E(<<>>, "file", 420, "c3")>>]
 C4  == [Item("c4", "man", "", None, <<"m.1">>) EXCEPT !.stem = "m", !.sect = "1", !.ext = ".1", !.st = <<E(<<>>, "file", 420, "c4")>>]
 C5  == [Item("c5", "subdir", "", Rel(<<"share">>), <<"S">>) EXCEPT !.tag = "t2", !.exd = << <<"ex">> >>, !.exf = << <<"in", "f2">> >>,
             !.st = <<E(<<"f1">>, "file", 493, "c5a"), E(<<"in">>, "dir", 488, ""), E(<<"in", "f2">>, "file", 420, "c5b"),
@@ -43,7 +47,7 @@ C6  == [Item("c6", "subdir", "", Rel(<<"share", "x">>), <<"T">>) EXCEPT !.strip 
 C7  == [Item("c7", "emptydir", "", Rel(<<"var", "e">>), <<>>) EXCEPT !.mode = 448]
 C8  == [Item("c8", "emptydir", "", Rel(<<"share", "x">>), <<>>) EXCEPT !.tag = "t1"]
 C9  == [Item("c9", "symlink", "", Rel(<<"share", "x">>), <<"lnk">>) EXCEPT !.tag = "t1", !.to = "a.dat"]
-C10 == [Item("c10", "target", "", Rel(<<"lib", "g">>), <<"out.bin">>) EXCEPT !.mode = 493, !.ext = ".bin", !.st = <<E(<<>>, "file", 420, "c10")>>]
+C10 == [Item("c10", "target", "", Rel(<<"lib", "g">>), <<"out.bin">>) EXCEPT !.mode = 2541, !.own = 1, !.grp = 2, !.ext = ".bin", !.st = <<E(<<>>, "file", 420, "c10")>>]
 C11 == [Item("c11", "data", "", Rel(<<"bin">>), <<"tool">>) EXCEPT !.st = <<E(<<>>, "file", 493, "c11")>>]
 C12 == [Item("c12", "data", "sp1", AbsD(<<"etc", "x">>), <<"c.dat">>) EXCEPT !.ext = ".dat", !.st = <<E(<<>>, "file", 420, "c12")>>]
 C13 == [Item("c13", "data", "", None, <<"d", "e.dat">>) EXCEPT !.pp = TRUE, !.ext = ".dat", !.st = <<E(<<>>, "file", 420, "c13")>>]
@@ -51,25 +55,37 @@ C14 == [Item("c14", "man", "", None, <<"n.fr.3">>) EXCEPT !.stem = "n", !.locale
 C15 == [Item("c15", "data", "", Rel(<<"share", "x">>), <<"r.dat">>) EXCEPT !.rename = <<"sub", "renamed">>, !.st = <<E(<<>>, "file", 420, "c15")>>]
 C16 == [Item("c16", "symlink", "sp1", AbsD(<<"etc", "x">>), <<"abs lnk">>) EXCEPT !.to = "/usr/share/x/a.dat"]
 \* directories with a declared mode that other rules also install into / below / above
-C17 == [Item("c17", "emptydir", "", Rel(<<"share", "x">>), <<>>) EXCEPT !.mode = 488]       \* where C1, C6, C9, C15 install to
+C17 == [Item("c17", "emptydir", "", Rel(<<"share", "x">>), <<>>) EXCEPT !.mode = 1000, !.own = 1, !.grp = 2]       \* where C1, C6, C9, C15 install to
 C18 == [Item("c18", "emptydir", "", Rel(<<"var">>), <<>>) EXCEPT !.mode = 489]                \* parent of C7
 C19 == [Item("c19", "emptydir", "sp1", Rel(<<"share", "S">>), <<>>) EXCEPT !.mode = 448]     \* top directory copied by C5
 \* sources that are symbolic links: copied as links (to a sibling of the same tree; absolute, to a file outside DESTDIR)
 \* or dereferenced
-C20 == [Item("c20", "subdir", "", Rel(<<"share">>), <<"L">>) EXCEPT !.fl = "false", !.tag = "t1",
+C20 == [Item("c20", "subdir", "", Rel(<<"share">>), <<"L">>) EXCEPT !.fl = "false", !.tag = "t1", !.mode = 3560, !.own = 1, !.grp = 1,
             !.st = <<E(<<"f">>, "file", 384, "c20"), L(<<"lnk">>, "f", "file", 384, "c20")>>]
 C21 == [Item("c21", "subdir", "", Rel(<<"share">>), <<"M">>) EXCEPT !.fl = "true",
             !.st = <<E(<<"f">>, "file", 493, "c21"), L(<<"lnk">>, "f", "file", 493, "c21")>>]
 C22 == [Item("c22", "data", "", Rel(<<"share", "x">>), <<"k.lnk">>) EXCEPT !.fl = "false", !.mode = 420,
             !.st = <<L(<<>>, "/usr/keep", "fixed", 384, "keep")>>]
 C23 == [Item("c23", "header", "sp1", None, <<"k.h">>) EXCEPT !.ext = ".h", !.st = <<L(<<>>, "/usr/keep", "fixed", 384, "keep")>>]
+\* the full install_mode - special bits with and without owner / group - for every kind of rule that takes one
+C24 == [Item("c24", "data", "", Rel(<<"libexec">>), <<"suid">>) EXCEPT !.mode = 2541, !.own = 0, !.grp = 0, !.st = <<E(<<>>, "file", 493, "c24")>>]      \* rwsr-xr-x, the ids it has anyway
+C25 == [Item("c25", "header", "", None, <<"sgid.h">>) EXCEPT !.mode = 1517, !.grp = 1, !.ext = ".h", !.st = <<E(<<>>, "file", 420, "c25")>>]             \* rwxr-sr-x, group only
+C26 == [Item("c26", "man", "", None, <<"o.5">>) EXCEPT !.stem = "o", !.sect = "5", !.ext = ".5", !.mode = 3565, !.own = 2, !.st = <<E(<<>>, "file", 420, "c26")>>]  \* rwsr-sr-x
+C27 == [Item("c27", "data", "sp1", Rel(<<"libexec">>), <<"lock">>) EXCEPT !.mode = 1509, !.own = 1, !.grp = 1, !.st = <<E(<<>>, "file", 420, "c27")>>]  \* rwxr-Sr-x
+C28 == [Item("c28", "data", "", Rel(<<"libexec">>), <<"sticky">>) EXCEPT !.mode = 1005, !.grp = 2, !.st = <<E(<<>>, "file", 493, "c28")>>]               \* rwxr-xr-t on a file: ignored
+C29 == [Item("c29", "emptydir", "", Rel(<<"var", "g">>), <<>>) EXCEPT !.mode = 2045, !.own = 1, !.grp = 2]                                             \* rwxrwsr-t, nothing below
+C30 == [Item("c30", "emptydir", "", Rel(<<"var", "h">>), <<>>) EXCEPT !.own = 2]                                                                        \* [false, 2]
+C31 == [Item("c31", "data", "", Rel(<<"libexec">>), <<"plain-suid">>) EXCEPT !.mode = 2469, !.st = <<E(<<>>, "file", 420, "c31")>>]                      \* rwSr--r-x, no owner
+C32 == [Item("c32", "subdir", "", Rel(<<"libexec">>), <<"U">>) EXCEPT !.own = 2, !.grp = 1,
+            !.st = <<E(<<"f">>, "file", 493, "c32a"), E(<<"in">>, "dir", 488, ""), E(<<"in", "g">>, "file", 416, "c32b")>>]                            \* [false, 2, 1]: directories stay
 
 Catalog == IF CatalogName = "small" THEN {C1, C2, C3, C5, C8, C9, C10, C17, C20}
-           ELSE {C1, C2, C3, C4, C5, C6, C7, C8, C9, C10, C11, C12, C13, C14, C15, C16, C17, C18, C19, C20, C21, C22, C23}
+           ELSE {C1, C2, C3, C4, C5, C6, C7, C8, C9, C10, C11, C12, C13, C14, C15, C16, C17, C18, C19, C20, C21, C22, C23,
+                 C24, C25, C26, C27, C28, C29, C30, C31, C32}
 
 BaseOpts == [prefix |-> <<"usr">>, bindir |-> <<"bin">>, sbindir |-> <<"sbin">>, libdir |-> <<"lib">>,
              includedir |-> <<"include">>, localedir |-> <<"share", "locale">>, datadir |-> <<"share">>,
-             mandir |-> <<"share", "man">>, proj |-> "pm", umask |-> 18, eumask |-> 18]
+             mandir |-> <<"share", "man">>, proj |-> "pm", umask |-> 18, eumask |-> 18, uid |-> 0, gid |-> 0]
 OptsSet == IF OptsName = "two" THEN { [BaseOpts EXCEPT !.umask = 23, !.eumask = 63], [BaseOpts EXCEPT !.umask = -1, !.eumask = 23] }
            ELSE { BaseOpts, [BaseOpts EXCEPT !.umask = 23, !.eumask = 63], [BaseOpts EXCEPT !.umask = -1],
                   [BaseOpts EXCEPT !.umask = -1, !.eumask = 23] }
@@ -82,18 +98,35 @@ ArgSet == { A(<<>>, <<>>, FALSE, FALSE), A(<<>>, <<>>, TRUE, FALSE), A(<<>>, <<>
 
 Plans == { P \in SUBSET Catalog : Cardinality(P) >= 1 /\ Cardinality(P) <= MaxPlan /\ \A op \in OptsSet : ConflictFree(P, op) }
 
+\* the kernel rule is what makes the order matter: permissions first, owner second would lose the special bits
+ASSUME ChownKillsPriv ==
+    LET q  == <<"f">>
+        s0 == [fs |-> (q :> File(420, "c", 0, 0, 0)), dirs |-> <<>>, files |-> <<>>]
+        o0 == [umask |-> 18]
+    IN /\ SetMode(s0, q, 2541, 1, 1, o0, FALSE).fs[q] = File(2541, "c", 1, 1, 0)                   \* rwsr-xr-x daemon daemon
+       /\ Chown(Chmod(s0, q, 2541, FALSE), q, 1, 1, FALSE).fs[q] = File(493, "c", 1, 1, 0)         \* the other order: rwxr-xr-x
+       /\ Chown(Chmod(s0, q, 1517, FALSE), q, -1, 0, FALSE).fs[q].m = 493                         \* rwxr-sr-x, same ids: still lost
+       /\ Chown(Chmod(s0, q, 1509, FALSE), q, 0, 0, FALSE).fs[q].m = 1509                         \* rwxr-Sr-x stays
+       /\ LET d0 == [s0 EXCEPT !.fs = (q :> Dir(493, 0, 0))]
+          IN Chown(Chmod(d0, q, 1533, FALSE), q, 1, 1, FALSE).fs[q] = Dir(1533, 1, 1)              \* directories keep their bits
+
+
 \* ---- the world ------------------------------------------------------------------------
 D == <<"w", "D">>
-World0 == (<<>> :> Dir(493)) @@ (<<"w">> :> Dir(493)) @@ (<<"usr">> :> Dir(493)) @@ (<<"usr", "keep">> :> File(420, "keep"))
-           @@ (<<"etc">> :> Dir(493))
+World0 == (<<>> :> Dir(493, 0, 0)) @@ (<<"w">> :> Dir(493, 0, 0)) @@ (<<"usr">> :> Dir(493, 0, 0)) @@ (<<"usr", "keep">> :> File(420, "keep", 0, 0, 0))
+           @@ (<<"etc">> :> Dir(493, 0, 0))
 \* DESTDIR exists and already holds a directory some rules install to (with permissions nobody declared)
-WorldPre == World0 @@ (D :> Dir(448)) @@ (D \o <<"usr">> :> Dir(493)) @@ (D \o <<"usr", "share">> :> Dir(493))
-            @@ (D \o <<"usr", "share", "x">> :> Dir(511))
+WorldPre == World0 @@ (D :> Dir(448, 0, 0)) @@ (D \o <<"usr">> :> Dir(493, 0, 0)) @@ (D \o <<"usr", "share">> :> Dir(493, 0, 0))
+            @@ (D \o <<"usr", "share", "x">> :> Dir(511, 0, 0))
 PlantPaths == { D \o <<"zz">>, D \o <<"usr", "share", "x", "zz">> }
 
-\* the rule with its sources as they are now (an edited source has new content and a newer time stamp)
+\* the rule with its sources as they are now.  ver = 1: edited (new content, newer time stamp);  2: new content under
+\* the old time stamp (put back from an archive);  3: the old content with a newer time stamp (touched)
 Cur(i) == IF ver = 0 THEN i
-          ELSE [i EXCEPT !.st = [k \in 1..Len(i.st) |-> IF i.st[k].t = "file" \/ (i.st[k].t = "link" /\ i.st[k].r = "file") THEN [i.st[k] EXCEPT !.c = @ \o "#1"] ELSE i.st[k]]]
+          ELSE [i EXCEPT !.st = [k \in 1..Len(i.st) |->
+                    IF i.st[k].t = "file" \/ (i.st[k].t = "link" /\ i.st[k].r = "file")
+                    THEN [i.st[k] EXCEPT !.c = IF ver \in {1, 2} THEN @ \o "#1" ELSE @, !.mt = IF ver \in {1, 3} THEN 1 ELSE @]
+                    ELSE i.st[k]]]
 CurPlan == { Cur(i) : i \in plan }
 
 Perms(S) == { f \in [1..Cardinality(S) -> S] : \A j, k \in 1..Cardinality(S) : j # k => f[j] # f[k] }
@@ -106,7 +139,7 @@ CanonOrder(sel) == CHOOSE f \in Perms(sel) : Canonical(f)
 
 Init == /\ plan \in Plans
         /\ o \in OptsSet
-        /\ fs \in IF CatalogName = "small" THEN { World0, WorldPre } ELSE { World0, World0 @@ (D :> Dir(448)), WorldPre }
+        /\ fs \in IF CatalogName = "small" THEN { World0, WorldPre } ELSE { World0, World0 @@ (D :> Dir(448, 0, 0)), WorldPre }
         /\ log = <<>>
         /\ ver = 0
         /\ bad = {}
@@ -123,6 +156,14 @@ InstallLaws(a, r, e, sel) ==
        \cup (IF ~a.dry /\ r2.fs # r.fs THEN {"Idempotent"} ELSE {})
        \cup (IF ~a.dry /\ Install(e.tree, CurPlan, o, a).tree # e.tree THEN {"Idempotent"} ELSE {})
        \cup (IF Rng(rd.log) # Rng(r.log) THEN {"DryRunSameLog"} ELSE {})
+       \* --only-changed as the manual words it: an installed file is overwritten (and logged) exactly when it is older
+       \* than the file that would be copied over it - whatever the two contain
+       \cup (IF a.oc /\ ~a.dry /\ \E x \in AllLeaves(sel, o) :
+                   /\ x.n.t = "file" /\ x.p \in DOMAIN T /\ T[x.p].t = "file"
+                   /\ LET n == TreeOf(r.fs, D)[x.p] IN
+                      IF T[x.p].mt >= x.n.mt THEN n.c # T[x.p].c \/ n.mt # T[x.p].mt \/ x.p \in Rng(LogRel(r.log, D))
+                      ELSE n.c # x.n.c \/ n.mt < x.n.mt \/ x.p \notin Rng(LogRel(r.log, D))
+             THEN {"OnlyChangedByTime"} ELSE {})
        \cup (IF \E f \in Orders(sel) : LET rf == OpInstall(fs, D, f, o, a) IN rf.fs # r.fs \/ Rng(rf.log) # Rng(r.log)
              THEN {"OrderIndependent"} ELSE {})
        \cup (IF ~a.dry /\ fresh /\ OpUninstall(r.fs, r.log) # fs THEN {"ReversibleWhenFresh"} ELSE {})
@@ -152,15 +193,15 @@ DoUninstall ==
     /\ bad' = bad \cup UninstallLaws(fs2)
     /\ UNCHANGED <<plan, o, ver, log>>
 
-\* every source of the project is edited (once)
+\* every source of the project is changed (once): edited, or - TimesName = "all" - content and time stamp apart
 Touch == /\ ver = 0
-         /\ ver' = 1
+         /\ ver' \in IF TimesName = "all" THEN {1, 2, 3} ELSE {1}
          /\ UNCHANGED <<plan, o, fs, log, bad>>
 
 \* somebody else puts one file below DESTDIR
 Plant(p) == /\ PlantPaths \cap DOMAIN fs = {}
             /\ FrontOf(p) \in DOMAIN fs /\ fs[FrontOf(p)].t = "dir"
-            /\ fs' = Put(fs, p, File(420, "foreign"))
+            /\ fs' = Put(fs, p, File(420, "foreign", 0, 0, 0))
             /\ UNCHANGED <<plan, o, ver, log, bad>>
 
 Next == \/ \E a \in ArgSet : DoInstall(a)
@@ -176,6 +217,7 @@ Confined                   == "Confined" \notin bad
 Exact                      == "Exact" \notin bad
 DryRunNoop                 == "DryRunNoop" \notin bad /\ "DryRunSameLog" \notin bad
 Idempotent                 == "Idempotent" \notin bad
+OnlyChangedByTime          == "OnlyChangedByTime" \notin bad
 LogNamesCreated            == "LogNamesCreated" \notin bad
 UninstallRemovesExactlyLog == "UninstallRemovesExactlyLog" \notin bad
 OrderIndependent           == "OrderIndependent" \notin bad
